@@ -152,6 +152,8 @@ class ReproCase(Case):
                 ee.calculate(x + 0.5, compute_functions=True, compute_gradients=True)   # a second gradient: the stream continues
                 return calls
 
+            if self.interference == "same-step":
+                return self.same_step_runs(env, state)
             run1 = one_run(clone_config(self.cfg_a), "hidden1")
             if self.interference == "earlier-run":
                 one_run(clone_config(self.cfg_other), "hidden2")   # another optimization earlier in the same process
@@ -163,6 +165,43 @@ class ReproCase(Case):
             S.scale, EE.default_rng = old[2], old[3]
             PROXY.__dict__.pop("random", None)
         return {"run1": run1, "run2": run2, "run3": run3}
+
+    def same_step_runs(self, env, state):
+        """One optimizer step of one plan, run twice with the same validated configuration object (what the inner
+        step of a nested plan goes through), then once more with another seed."""
+        from ropt.evaluator import EvaluatorResult
+        from ropt.plan import OptimizerContext, Plan
+
+        pm = ens.stub_optimizer_manager()
+        sink = {"calls": None}
+
+        def evaluator(variables, context):
+            sink["calls"].append((variables, context))
+            return EvaluatorResult(objectives=np.full((variables.shape[0], 1), np.nan))   # only the requests are compared
+
+        def script(opt, x0):
+            x = env.const(np.zeros(self.N))
+            opt.callback(x, return_functions=True, return_gradients=True)
+            opt.callback(x + 0.5, return_functions=True, return_gradients=True)
+
+        ens.set_script(script, allow_nan=True)
+        plan = Plan(OptimizerContext(evaluator=evaluator, plugin_manager=pm))
+        step = plan.add_step("optimizer")
+        cfg = clone_config(self.cfg_a)
+        cfg.optimizer.__dict__["method"] = "symstub/x"
+        cfg.realizations.__dict__["realization_min_success"] = 0
+        out = {}
+        for name, hidden in (("run1", "hidden1"), ("run2", "hidden2")):
+            state["hidden"], state["hk"] = hidden, 0
+            sink["calls"] = out[name] = []
+            plan.run_step(step, config=cfg)
+        cfg_b = clone_config(self.cfg_b)
+        cfg_b.optimizer.__dict__["method"] = "symstub/x"
+        cfg_b.realizations.__dict__["realization_min_success"] = 0
+        state["hidden"], state["hk"] = "hidden1", 0
+        sink["calls"] = out["run3"] = []
+        plan.run_step(step, config=cfg_b)
+        return out
 
     def props(self, env, inp, oc):
         if not oc.ok:
@@ -287,6 +326,8 @@ def build_cases(tier):
     add(methods=("truncnorm",), N=3, mask=(True, False, True), interference="hidden-only")
     add(methods=("lhs",), options={"scramble": False})
     add(methods=("sobol",), options={"scramble": False}, interference="hidden-only")
+    add(methods=("norm",), interference="same-step")      # one plan step run twice with one configuration object
+    add(methods=("lhs", "uniform"), N=3, sampler_map=(0, 1, 0), interference="same-step")
     for key in ("seed", "rng"):
         for par in (False, True):
             k += 1
